@@ -243,6 +243,13 @@ def name_lit(s: str):
     return _LITS[s]
 
 
+def lit_value(t):
+    """the python string of a name literal term, else None"""
+    if z3.is_const(t) and t.decl().name().startswith("lit:"):
+        return t.decl().name()[4:]
+    return None
+
+
 def literal_axioms():
     v = list(_LITS.values())
     return [z3.Distinct(*v)] if len(v) > 1 else []
